@@ -24,3 +24,8 @@ def run(ctx) -> None:
     timed = [r for r in res if getattr(r, "timed", False) and r.rule.split(".")[0] in
              ("A1", "A2", "A3", "N1", "N2", "R1", "R3", "D1")]
     report(ctx, timed, "C02.T3", prefixes=("A", "N", "R", "D"))
+    # Z: end to end on stream templates: the compiled regex of whole rules, under each flag setting, searched in token
+    # templates of the instruction stream (every instantiation at once): found exactly where the property says, else not
+    from ..models import make_interp as _mk
+    from ..streamshapes import end_to_end
+    end_to_end(ctx, _mk(ctx.p), "C02", "C02.Z.found-where-the-property-says", "C02.Z.not-found-elsewhere")
